@@ -9,12 +9,12 @@ from ..terms import F, C, V, A
 NSHARDS = 64
 
 
-def tree_case(tree, continuation=False, extra_script=False, prefix=False, suffix=0, one_unit=False):
+def tree_case(tree, continuation=False, extra_script=False, prefix=False, suffix=0, one_unit=False, wrapped=False):
     """one_unit: the leaf predicates are defined in the SAME compilation unit as the clause under test
     (whatever a compiler concludes from seeing all of their clauses), and each of them has one more
     answer at run time that the unit does not show: a dynamic fact"""
     body, k = bodies.instantiate(tree)
-    prog, nargs = bodies.context_program(body, k, continuation=continuation, prefix=prefix, suffix=suffix)
+    prog, nargs = bodies.context_program(body, k, continuation=continuation, prefix=prefix, suffix=suffix, wrapped=wrapped)
     if _has_leaf(tree, 'j'):
         prog = prog + bodies.KK_CLAUSES
     if one_unit:
